@@ -123,6 +123,11 @@ func (p *PktapV1) DecodeFromBytes(data []byte, df gopacket.DecodeFeedback) error
 		return fmt.Errorf("pktap v1 header length mismatch: got %d", p.HeaderLength)
 	}
 
+	if uint64(p.HeaderLength) > uint64(len(data)) {
+		df.SetTruncated()
+		return fmt.Errorf("pktap v1 header length %d exceeds packet size %d", p.HeaderLength, len(data))
+	}
+
 	p.RecordType = binary.LittleEndian.Uint32(data[4:8])
 	if p.RecordType != PKTRecPacket {
 		return fmt.Errorf("pktap unsupported record type: %d", p.RecordType)
